@@ -47,6 +47,7 @@ namespace SqlObjVerif.Tx
 @[simp] theorem St.setConn_obsolete (s : St) (sd : Side) (c : Conn) : (s.setConn sd c).obsolete = s.obsolete := by
   cases sd <;> rfl
 @[simp] theorem St.setConn_del (s : St) (sd : Side) (c : Conn) : (s.setConn sd c).del = s.del := by cases sd <;> rfl
+@[simp] theorem St.setConn_upd (s : St) (sd : Side) (c : Conn) : (s.setConn sd c).upd = s.upd := by cases sd <;> rfl
 @[simp] theorem St.setConn_dom (s : St) (sd : Side) (c : Conn) : (s.setConn sd c).dom = s.dom := by cases sd <;> rfl
 @[simp] theorem St.setConn_conn (s : St) (sd : Side) (c : Conn) : (s.setConn sd c).conn sd = c := by cases sd <;> rfl
 @[simp] theorem St.setConn_T_p (s : St) (c : Conn) : (s.setConn .T c).p = s.p := rfl
@@ -445,12 +446,13 @@ theorem anyLoaded_false {c : Conn} {k : Key} (h : anyLoaded c k = false) (wf : C
     exact this
   · exact wf.fresh j' (by omega)
 
-/-- the loaded live instances of rows the transaction wrote are the ones the cache hands out, and the
-    transaction's bookkeeping reaches the row -/
+/-- the loaded live parent instances of rows the transaction wrote are the ones the parent cache hands out.  (That the
+    transaction's bookkeeping reaches every such row is no longer a hypothesis: `Transaction._SO_update` logs the row,
+    `WsLogged` below.) -/
 def commitReaches (s : St) : Bool :=
   (List.range s.p.n).all fun j =>
     !((s.p.insts j).loaded && !(s.p.insts j).destroyed && (s.ws (s.p.insts j).key).isSome)
-    || (s.reached (s.p.insts j).key && (s.p.tryGet s.dc (s.p.insts j).key == some j))
+    || (s.p.tryGet s.dc (s.p.insts j).key == some j)
 
 def rollbackReaches (s : St) : Bool :=
   (List.range s.t.n).all fun j =>
@@ -572,7 +574,7 @@ theorem opSet_inv {s : St} (hi : Inv s) (sd : Side) (j : Nat) (col : Col) (v : V
     simp only [St.conn] at hlt
     simp only
     split
-    · exact hi
+    · exact ⟨hi.cohP, hi.cohT, hi.wfP, hi.wfT, hi.wsLock⟩
     rename_i hob
     simp only [good, Bool.or_eq_true, decide_eq_true_eq, Bool.and_eq_true, Bool.not_eq_true'] at hg
     rcases hg with (hg | hg) | ⟨hv, ho⟩
@@ -684,7 +686,7 @@ theorem ConnWF.expireWhere {c : Conn} (wf : ConnWF c) (hitI : Nat → Bool) (hit
 theorem commitReaches_spec {s : St} (h : commitReaches s = true) (wf : ConnWF s.p) (j : Nat)
     (hl : (s.p.insts j).loaded = true) (hd : (s.p.insts j).destroyed = false)
     (hw : (s.ws (s.p.insts j).key).isSome = true) :
-    s.reached (s.p.insts j).key = true ∧ s.p.tryGet s.dc (s.p.insts j).key = some j := by
+    s.p.tryGet s.dc (s.p.insts j).key = some j := by
   have hlt : j < s.p.n := by
     by_cases hh : j < s.p.n
     · exact hh
@@ -705,7 +707,171 @@ theorem rollbackReaches_spec {s : St} (h : rollbackReaches s = true) (wf : ConnW
   have := h j hlt
   simpa [hl, hd, hw] using this
 
-theorem opCommit_inv {s : St} (hi : Inv s) (close : Bool) (hg : good s (.commit close) = true) :
+/-- every row in the transaction's write set is a row it created (no committed row of that key), or is in the
+    updated log, or in the deleted log: whatever the transaction wrote that the parent may hold an instance of is known
+    to `commit`.  Holds in every state every history reaches (no `good` needed). -/
+structure WsLogged (s : St) : Prop where
+  wsLock : s.lock = false → ∀ k, s.ws k = none
+  logged : ∀ k, (s.ws k).isSome = true → s.db k = none ∨ k ∈ s.upd ∨ k ∈ s.del
+
+theorem WsLogged.init (dc : Bool) : WsLogged (init dc) := ⟨fun _ _ => rfl, fun k h => by simp [Tx.init] at h⟩
+
+theorem WsLogged.of_frame {s s' : St} (h : WsLogged s) (h1 : s'.db = s.db) (h2 : s'.ws = s.ws) (h3 : s'.lock = s.lock)
+    (h4 : s'.upd = s.upd) (h5 : s'.del = s.del) : WsLogged s' :=
+  ⟨fun hl k => by rw [h2]; exact h.wsLock (by rw [← h3]; exact hl) k,
+   fun k hk => by rw [h1, h4, h5]; exact h.logged k (by rw [← h2]; exact hk)⟩
+
+theorem selStep_upd (sd : Side) (acc : St × List (Nat × Key)) (k : Key) : (selStep sd acc k).1.upd = acc.1.upd := by
+  unfold selStep
+  split
+  · rfl
+  · split <;> simp
+
+theorem selFold_upd (sd : Side) (l : List Key) (acc : St × List (Nat × Key)) :
+    (l.foldl (selStep sd) acc).1.upd = acc.1.upd := by
+  induction l generalizing acc with
+  | nil => rfl
+  | cons k l ih => simp only [List.foldl_cons]; exact (ih _).trans (selStep_upd sd acc k)
+
+theorem step_wsLogged {s : St} (h : WsLogged s) (op : Op) : WsLogged (step s op).1 := by
+  cases op with
+  | create sd k row =>
+    cases sd with
+    | P =>
+      simp only [step, opCreate]
+      repeat' split
+      · exact h
+      · exact h
+      · rename_i hl _
+        have hws := h.wsLock (by simpa using hl)
+        exact ⟨fun _ => hws, fun x hx => by simp [hws x] at hx⟩
+    | T =>
+      simp only [step, opCreate]
+      repeat' split
+      · exact h
+      · exact ⟨fun hl => by simp at hl, h.logged⟩
+      · rename_i hv
+        refine ⟨fun hl => by simp at hl, ?_⟩
+        intro x hx
+        simp only [upd_apply] at hx
+        by_cases hxk : x = k
+        · subst hxk
+          cases hw : s.ws x with
+          | none => left; simpa [St.view, hw] using hv
+          | some w => exact h.logged x (by simp [hw])
+        · exact h.logged x (by simpa [hxk] using hx)
+  | get sd k b =>
+    simp only [step, opGet]
+    repeat' split
+    all_goals exact h.of_frame (by simp) (by simp) (by simp) (by simp) (by simp)
+  | read sd j c =>
+    simp only [step, opRead]
+    repeat' split
+    all_goals exact h.of_frame (by simp) (by simp) (by simp) (by simp) (by simp)
+  | set sd j c v =>
+    cases sd with
+    | P =>
+      simp only [step, opSet]
+      repeat' split
+      · exact h
+      · exact h
+      · rename_i hl
+        have hws := h.wsLock (by simpa using hl)
+        exact ⟨fun _ => hws, fun x hx => by simp [hws x] at hx⟩
+    | T =>
+      simp only [step, opSet]
+      split
+      · exact h
+      split
+      · refine ⟨h.wsLock, fun x hx => ?_⟩
+        simp only [List.mem_cons]
+        rcases h.logged x hx with a | a | a
+        · exact Or.inl a
+        · exact Or.inr (Or.inl (Or.inr a))
+        · exact Or.inr (Or.inr a)
+      · refine ⟨fun hl => by simp at hl, ?_⟩
+        intro x hx
+        simp only [List.mem_cons]
+        by_cases hxk : x = (s.t.insts j).key
+        · exact Or.inr (Or.inl (Or.inl hxk))
+        · have hx' : (s.ws x).isSome = true := by
+            revert hx; simp only
+            cases s.view Side.T (s.t.insts j).key <;> simp [upd_apply, hxk]
+          rcases h.logged x hx' with a | a | a
+          · exact Or.inl a
+          · exact Or.inr (Or.inl (Or.inr a))
+          · exact Or.inr (Or.inr a)
+  | destroy sd j =>
+    cases sd with
+    | P =>
+      simp only [step, opDestroy]
+      repeat' split
+      · exact h
+      · exact h
+      · rename_i hl
+        have hws := h.wsLock (by simpa using hl)
+        exact ⟨fun _ => hws, fun x hx => by simp [hws x] at hx⟩
+    | T =>
+      simp only [step, opDestroy]
+      split
+      · exact h
+      split
+      · refine ⟨h.wsLock, fun x hx => ?_⟩
+        simp only [List.mem_cons]
+        rcases h.logged x hx with a | a | a
+        · exact Or.inl a
+        · exact Or.inr (Or.inl a)
+        · exact Or.inr (Or.inr (Or.inr a))
+      · refine ⟨fun hl => by simp at hl, ?_⟩
+        intro x hx
+        simp only [List.mem_cons]
+        by_cases hxk : x = (s.t.insts j).key
+        · exact Or.inr (Or.inr (Or.inl hxk))
+        · have hx' : (s.ws x).isSome = true := by
+            revert hx; simp only
+            cases s.view Side.T (s.t.insts j).key <;> simp [upd_apply, hxk]
+          rcases h.logged x hx' with a | a | a
+          · exact Or.inl a
+          · exact Or.inr (Or.inl a)
+          · exact Or.inr (Or.inr (Or.inr a))
+  | expire sd j =>
+    simp only [step, opExpire]
+    repeat' split
+    all_goals exact h.of_frame (by simp) (by simp) (by simp) (by simp) (by simp)
+  | select sd cls =>
+    simp only [step, opSelect]
+    split
+    · exact h
+    · have f := selFold_frame sd (s.dom.filter fun k => clsOf k == cls) (s, [])
+      exact h.of_frame f.1 f.2.2.1 f.2.2.2.1 (selFold_upd sd _ _) f.2.2.2.2.2.2
+  | drop sd j =>
+    simp only [step, opDrop]
+    repeat' split
+    all_goals exact h.of_frame (by simp) (by simp) (by simp) (by simp) (by simp)
+  | weaken sd k => exact h.of_frame (by simp [step]) (by simp [step]) (by simp [step]) (by simp [step]) (by simp [step])
+  | purge sd cls => exact h.of_frame (by simp [step]) (by simp [step]) (by simp [step]) (by simp [step]) (by simp [step])
+  | commit close =>
+    simp only [step, opCommit]
+    split
+    · exact h
+    · exact ⟨fun _ _ => rfl, fun k hk => by simp at hk⟩
+  | rollback =>
+    simp only [step, opRollback]
+    split
+    · exact h
+    · exact ⟨fun _ _ => rfl, fun k hk => by simp at hk⟩
+  | begin =>
+    simp only [step, opBegin]
+    split
+    · exact h.of_frame rfl rfl rfl rfl rfl
+    · exact h
+
+theorem run_wsLogged {s : St} (h : WsLogged s) (ops : List Op) : WsLogged (run s ops) := by
+  induction ops generalizing s with
+  | nil => exact h
+  | cons op ops ih => exact ih (step_wsLogged h op)
+
+theorem opCommit_inv {s : St} (hi : Inv s) (hlg : WsLogged s) (close : Bool) (hg : good s (.commit close) = true) :
     Inv (opCommit s close).1 := by
   unfold opCommit
   split
@@ -729,8 +895,12 @@ theorem opCommit_inv {s : St} (hi : Inv s) (close : Bool) (hg : good s (.commit 
       cases hw : s.ws (s.p.insts j).key with
       | none => simp only [St.view, hw]; exact hi.cohP j col v hd hc
       | some w =>
-        have := hsp j hl hd (by simp [hw])
-        simp [this.1, this.2] at hne
+        have hatt := hsp j hl hd (by simp [hw])
+        rcases hlg.logged (s.p.insts j).key (by simp [hw]) with h0 | h0 | h0
+        · have := hi.cohP j col v hd hc
+          rw [h0] at this; simp at this
+        · simp [St.reached, h0, hatt] at hne
+        · simp [St.reached, h0, hatt] at hne
   · exact hi.cohT
   · exact hi.wfP.expireWhere _ _
 
@@ -770,7 +940,7 @@ theorem opBegin_inv {s : St} (hi : Inv s) : Inv (opBegin s).1 := by
   · exact hi
 
 /-- every step inside `good` preserves the invariant -/
-theorem step_inv {s : St} (hi : Inv s) (op : Op) (hg : good s op = true) : Inv (step s op).1 := by
+theorem step_inv {s : St} (hi : Inv s) (hlg : WsLogged s) (op : Op) (hg : good s op = true) : Inv (step s op).1 := by
   cases op with
   | create sd k row => exact opCreate_inv hi sd k row
   | get sd k b => exact opGet_inv hi sd k b
@@ -782,7 +952,7 @@ theorem step_inv {s : St} (hi : Inv s) (op : Op) (hg : good s op = true) : Inv (
   | drop sd j => exact opDrop_inv hi sd j
   | weaken sd k => exact weaken_inv hi sd k
   | purge sd cls => exact purge_inv hi sd cls
-  | commit close => exact opCommit_inv hi close hg
+  | commit close => exact opCommit_inv hi hlg close hg
   | rollback => exact opRollback_inv hi hg
   | begin => exact opBegin_inv hi
 
@@ -797,10 +967,10 @@ instance GoodHist.dec : (s : St) → (ops : List Op) → Decidable (GoodHist s o
     have := GoodHist.dec (step s op).1 ops
     inferInstanceAs (Decidable (good s op = true ∧ GoodHist (step s op).1 ops))
 
-theorem run_inv {s : St} (hi : Inv s) (ops : List Op) (hg : GoodHist s ops) : Inv (run s ops) := by
+theorem run_inv {s : St} (hi : Inv s) (hlg : WsLogged s) (ops : List Op) (hg : GoodHist s ops) : Inv (run s ops) := by
   induction ops generalizing s with
   | nil => exact hi
-  | cons op ops ih => exact ih (step_inv hi op hg.1) hg.2
+  | cons op ops ih => exact ih (step_inv hi hlg op hg.1) (step_wsLogged hlg op) hg.2
 
 /-! ### `select` enumerates the side's view: the domain invariant -/
 
